@@ -1,6 +1,10 @@
 From Coq Require Import Extraction ExtrOcamlBasic.
-From GM Require Import Model.WsConn Oracle.C18O.
+From GM Require Import Base.Topic Model.WsConn Model.SubTrie Model.SubSpec Model.TopicMatch Oracle.C18O Oracle.C02O.
 Extraction Language OCaml.
 Set Extraction KeepSingleton.
 Extraction "model.ml"
-  C18O.model_obs C18O.c18_ok C18O.c18_obs_eqb.
+  C18O.model_obs C18O.c18_ok C18O.c18_obs_eqb
+  SubTrie.db_run SubTrie.db_iterate SubTrie.db_client_stats SubTrie.db_init SubSpec.spec_run SubSpec.wf_ops
+  C02O.c02_query_ok C02O.c11_query_ok C02O.mixed_query_ok C02O.expect_gstats C02O.expect_cstats
+  C02O.expect_already C02O.model_already C02O.ires_eqb C02O.tm_ok C02O.tm_model
+  TopicMatch.valid_name_spec TopicMatch.valid_filter_spec Topic.topic_match.
